@@ -92,6 +92,7 @@ package mqtt
 //@   freshresult
 //@   requires 0 <= n && n <= 0xFFFFFFF
 //@   ensures[C05] seqEq(seqOf(result), specVarint(n))
+//@   rejects[C05] overlong: n > 0xFFFFFFF
 
 //@ func appendUint16
 //@   mode int
@@ -106,6 +107,7 @@ package mqtt
 //@   requires len(s) <= 0xFFFF
 //@   requires !sameArray(b, s)
 //@   ensures[C05] seqEq(seqOf(result), cat3(seqOf(b), u16be(uint16(len(s))), seqOf(s)))
+//@   rejects[C05] overlong: len(s) > 0xFFFF
 
 //@ func appendString
 //@   mode int
@@ -286,10 +288,24 @@ package mqtt
 //@   mode bv
 //@   props C06
 //@   pure
-//@   loop 1 invariant shift <= 28 && shift%7 == 0 && 0 <= remainingLength && remainingLength < 1<<shift
+//@   loop 1 unroll 6
 //@   ensures[C06] result3 == nil ==> len(result2) <= 268435455
 //@   ensures[C06] alloc: maxAlloc() <= 268435455
 //@   ensures[C06] result3 == nil ==> result0&0x0F == 0
+//@   ensures[C04,C06] reader_or_overlong: result3 != nil && evCount("io.ReadFull") <= 4 ==> evRet[error]("io.ReadFull", evCount("io.ReadFull")-1, 1) != nil
+//@   ensures[C06,C19] overlong_cause: evCount("io.ReadFull") == 5 && evRet[error]("io.ReadFull", 4, 1) == nil && sat(evBytes("io.ReadFull", 3, 1), 0) >= 0x80 ==>
+//@        asError(result3) != nil && asError(result3).Err == ErrInvalidPacketLength
+//@   ensures[C06,C19] reader_cause: result3 != nil && evRet[error]("io.ReadFull", evCount("io.ReadFull")-1, 1) != nil ==> result3 == evRet[error]("io.ReadFull", evCount("io.ReadFull")-1, 1)
+//@   ensures[C04] header: result3 == nil ==> result0 == packetType(sat(evBytes("io.ReadFull", 0, 1), 0)&0xF0) && result1 == sat(evBytes("io.ReadFull", 0, 1), 0)&0x0F
+//@   ensures[C04] body: result3 == nil ==> seqEq(seqOf(result2), evBytes("io.ReadFull", evCount("io.ReadFull")-1, 1))
+//@   ensures[C04] length1: result3 == nil && evCount("io.ReadFull") == 2 ==> len(result2) == int(sat(evBytes("io.ReadFull", 0, 1), 1))
+//@   ensures[C04] length2: result3 == nil && evCount("io.ReadFull") == 3 ==>
+//@        len(result2) == int(sat(evBytes("io.ReadFull", 0, 1), 1)&0x7F)+int(sat(evBytes("io.ReadFull", 1, 1), 0))*128
+//@   ensures[C04] length3: result3 == nil && evCount("io.ReadFull") == 4 ==>
+//@        len(result2) == int(sat(evBytes("io.ReadFull", 0, 1), 1)&0x7F)+int(sat(evBytes("io.ReadFull", 1, 1), 0)&0x7F)*128+int(sat(evBytes("io.ReadFull", 2, 1), 0))*16384
+//@   ensures[C04] length4: result3 == nil && evCount("io.ReadFull") == 5 ==>
+//@        len(result2) == int(sat(evBytes("io.ReadFull", 0, 1), 1)&0x7F)+int(sat(evBytes("io.ReadFull", 1, 1), 0)&0x7F)*128+
+//@        int(sat(evBytes("io.ReadFull", 2, 1), 0)&0x7F)*16384+int(sat(evBytes("io.ReadFull", 3, 1), 0))*2097152
 
 // ---- SUBSCRIBE / UNSUBSCRIBE (MQTT 3.1.1 sections 3.8, 3.10) ----
 
